@@ -31,10 +31,13 @@ def gen_specs(rng, parallel=False):
     shared_build = rng.choice([None, "make all", "make all"])
     for i in range(n):
         script = [rng.choice(mh.LETTERS) for _ in range(rng.randint(0, 6))] if rng.random() < 0.7 else []
+        if rng.random() < 0.25:
+            # failures that alternate with successes: many failed starts in total, never many in a row
+            script = [x for _ in range(rng.randint(2, 5)) for x in (rng.choice(["exit", "unp", "inv"]), "ok")][:rng.randint(3, 10)]
         if parallel:
             script = [l if l != "oserr" else "exit" for l in script]
         exe = "exe%d" % rng.randint(0, 1)
-        specs.append(mh.Spec("B%d" % i, exe=exe, N=rng.randint(1, 3), retries=rng.randint(0, 3),
+        specs.append(mh.Spec("B%d" % i, exe=exe, N=rng.randint(1, 5), retries=rng.randint(0, 3),
                              warmup=rng.choice([0, 0, 1]), ign=rng.random() < 0.3,
                              exe_build=rng.choice([None, shared_build, "make exe"]),
                              suite_build=rng.choice([None, None, shared_build, "make suite%d" % (i % 2)]),
